@@ -20,7 +20,7 @@ pub struct Cfg {
     pub conn_limit: u32,
 }
 
-pub const RULE: &str = "configuration product --runtime-type {current-thread, multi-thread} x --threads {1,2,8} x --eviction-policy {none, random with --memory-limit 1GiB} (x --max-item-size {1 KiB.., default} x --connection-limit {1,3} in the thorough tier), each a real memcrsd child process on its own loopback port. Every configuration is driven with the same proptest-generated single-connection programs (all implemented opcodes loud/quiet, unimplemented opcodes, TTL 0 only) in the same order; oracle: the response byte stream of every program is identical to that of the first configuration (CAS included). Per configuration: a set whose body equals the item limit is accepted and limit+1 is answered 0x03; of 12 simultaneous connections exactly `connection-limit` answer a noop (the others stay unanswered over a 300 ms grace); real-time probe: set ttl 2 hits immediately and misses after 3.5 s while a ttl-0 item stays. evaluations = configurations x programs. non-trivial = a program with at least 10 requests covering at least 6 opcodes";
+pub const RULE: &str = "configuration product --runtime-type {current-thread, multi-thread} x --threads {1,2,8} x --eviction-policy {none, random with --memory-limit 1GiB} (x --max-item-size {1 KiB.., default} x --connection-limit {1,3} in the thorough tier), each a real memcrsd child process on its own loopback port. Every configuration is driven with the same proptest-generated single-connection programs (all implemented opcodes loud/quiet, unimplemented opcodes, TTL 0 only) in the same order; oracle: the response byte stream of every program is identical to that of the first configuration (CAS included). Per configuration: a set whose body equals the item limit is accepted and limit+1 is answered 0x03; of 12 simultaneous connections exactly `connection-limit` answer a noop (the others stay unanswered over a 300 ms grace); 8 connections x 400 pipelined increments of one counter return 3200 distinct values and leave the exact total; real-time probe: set ttl 2 hits immediately and misses after 3.5 s while a ttl-0 item stays. evaluations = configurations x programs. non-trivial = a program with at least 10 requests covering at least 6 opcodes";
 pub const ASSUME: &[&str] = &[
     "memcrsd is built from /repo's working tree with cargo's dev profile (overflow checks on) into /verif/harness/target/memcrsd-build",
     "the configuration product is enumerated completely for the listed values only; --port varies per configuration by construction",
@@ -43,7 +43,7 @@ impl Drop for Proc {
 fn build_memcrsd() -> Result<String, String> {
     let target = format!("{}/harness/target/memcrsd-build", root());
     let st = Command::new("cargo")
-        .args(["build", "--offline", "--bin", "memcrsd", "--manifest-path", "/repo/Cargo.toml", "--target-dir", &target, "-q"])
+        .args(["build", "--offline", "--bin", "memcrsd", "--manifest-path", &format!("{}/Cargo.toml", std::env::var("VERIF_REPO").unwrap_or_else(|_| "/repo".into())), "--target-dir", &target, "-q"])
         .env("CARGO_NET_OFFLINE", "true")
         .stdout(Stdio::null())
         .stderr(Stdio::piped())
@@ -201,6 +201,67 @@ fn probes(p: &Proc) -> Result<(), (String, String)> {
         std::thread::sleep(Duration::from_millis(100));
         let out = run_program(p.port, &wire::simple(wire::NOOP, 5).bytes()).map_err(|e| ("slots_not_returned".to_string(), format!("{:?}: after the probe connections were closed a fresh one is not served: {}", cfg, e)))?;
         let _ = out;
+    }
+    // atomicity does not depend on the configuration either: 8 connections increment one counter
+    {
+        let clients = 8usize;
+        let per = 400usize;
+        let key = b"cfgctr";
+        let port = p.port;
+        let results: Vec<Result<Vec<u64>, String>> = std::thread::scope(|s| {
+            let hs: Vec<_> = (0..clients)
+                .map(|ci| {
+                    s.spawn(move || -> Result<Vec<u64>, String> {
+                        let mut stream = vec![];
+                        for i in 0..per {
+                            wire::counter(wire::INCR, key, 1, 0, 0, (ci * per + i) as u32 + 1000, 0).write_to(&mut stream);
+                        }
+                        let out = run_program(port, &stream)?;
+                        let rs = wire::parse_all(&out)?;
+                        Ok(rs
+                            .iter()
+                            .filter(|r| r.opcode == wire::INCR && r.status == 0 && r.value.len() == 8)
+                            .map(|r| {
+                                let mut b = [0u8; 8];
+                                b.copy_from_slice(&r.value);
+                                u64::from_be_bytes(b)
+                            })
+                            .collect())
+                    })
+                })
+                .collect();
+            hs.into_iter().map(|h| h.join().unwrap_or_else(|_| Err("panicked".into()))).collect()
+        });
+        let mut all: Vec<u64> = vec![];
+        for r in results {
+            match r {
+                Ok(v) => all.extend(v),
+                Err(e) => return Err(("concurrency_probe".into(), format!("{:?}: {}", cfg, e))),
+            }
+        }
+        let n = all.len();
+        all.sort();
+        all.dedup();
+        let fin = run_program(p.port, &wire::get(wire::GET, key, 1).bytes()).map_err(|e| ("concurrency_probe".to_string(), e))?;
+        let finv = wire::parse_all(&fin).ok().and_then(|v| v.first().map(|r| String::from_utf8_lossy(&r.value).to_string())).unwrap_or_default();
+        let expect = (clients * per) as u64;
+        // the first increment creates the counter with initial 0, the others add 1: values 0..expect-1
+        if n as u64 != expect || all.len() as u64 != expect || finv != (expect - 1).to_string() {
+            return Err((
+                "increments_lost_in_this_configuration".into(),
+                format!(
+                    "{:?}: {} connections x {} pipelined incr on one counter: {} acknowledged, {} distinct values returned, final value {:?} (expected {} distinct values, final {})",
+                    cfg,
+                    clients,
+                    per,
+                    n,
+                    all.len(),
+                    finv,
+                    expect,
+                    expect - 1
+                ),
+            ));
+        }
     }
     Ok(())
 }
